@@ -266,6 +266,19 @@ fn ill_typed_stmt(d: &mut Dec, p: &GProg) -> (&'static str, String) {
     if d.chance(110) {
         return mismatch_stmt(d);
     }
+    if d.chance(40) {
+        // a pattern of one kind against a scrutinee of another
+        const SCRUT: [(&str, &str); 6] = [("int", "1"), ("bool", "true"), ("unit", "()"), ("string", "\"s\""), ("tuple", "(1, true)"), ("array", "[1, 2]")];
+        const PATS: [(&str, &str); 6] = [("int", "1"), ("bool", "true"), ("unit", "()"), ("string", "\"s\""), ("tuple", "(q1, q2)"), ("int", "2i64")];
+        let si = d.below(SCRUT.len());
+        let mut pi = d.below(PATS.len());
+        if PATS[pi].0 == SCRUT[si].0 {
+            pi = (pi + 1) % 5;
+        }
+        let first = d.bool();
+        let arms = if first { format!("{} => 1, _ => 2", PATS[pi].1) } else { format!("_ if_never => 0, {} => 1", PATS[pi].1).replace("_ if_never => 0, ", "q0 => 0, ") };
+        return ("mismatch:pattern", format!("let _ = match {} {{ {arms} }};", SCRUT[si].1));
+    }
     let n_ctx = 6;
     let k = d.below(closed.len() + n_ctx);
     if k < closed.len() {
@@ -540,7 +553,7 @@ impl Check for C03 {
         ]
     }
     fn required_labels(&self, _tier: Tier) -> Vec<&'static str> {
-        vec!["ir-checked", "ill:call-arg-type", "ill:array-len", "ill:struct-field-type", "ill:mismatch:ctor-swap", "ill:mismatch:leaf", "ill:mismatch:arity", "ill:mismatch:array-len", "rejected-by:typer"]
+        vec!["ir-checked", "ill:call-arg-type", "ill:array-len", "ill:struct-field-type", "ill:mismatch:ctor-swap", "ill:mismatch:leaf", "ill:mismatch:arity", "ill:mismatch:array-len", "ill:mismatch:pattern", "rejected-by:typer"]
     }
     fn max_discard_fraction(&self) -> f64 {
         0.2
